@@ -26,6 +26,20 @@ ASSUMPTIONS = {
 
 
 DTYPE_TWIN_P = 0.2
+LAYOUT_TWIN_P = 0.15
+
+
+def _layout_twin(kwargs):
+    import numpy as np
+    tw, changed = {}, False
+    for k, v in kwargs.items():
+        if isinstance(v, np.ndarray) and v.ndim >= 2 and min(v.shape[:2]) > 1 and not v.flags.f_contiguous:
+            tw[k] = np.asfortranarray(v)
+            changed = True
+        else:
+            tw[k] = v.copy() if isinstance(v, np.ndarray) else v
+    return tw if changed else None
+
 INT_TWIN_PROPS = {"C01", "C02", "C09", "C10", "C12", "C14", "C18", "C19"}
 
 
@@ -117,6 +131,19 @@ def run_contract_search(key, tier, seed):
                 if o2.status == "fail" and (o2.detail == "clause is false" or str(o2.clause).startswith(("frame:", "fresh:"))):
                     out["failures"].append({"inputs": rtc.to_jsonable(tw), "clause": o2.clause, "detail": "integer-dtype input: " + str(o2.detail),
                                             "observed": o2.observed, "history": []})
+                    if len(out["failures"]) >= 5:
+                        break
+        if o.status == "ok" and rng.random() < LAYOUT_TWIN_P:
+            # memory-layout twin: the same values in Fortran (column-major) order -- what `m.T`, np.rot90 or np.asfortranarray hand
+            # over.  Nothing in any statement depends on the layout, so every clause must hold unchanged.
+            tw = _layout_twin(kwargs)
+            if tw is not None:
+                o3 = rtc.run_contract(c, tw)
+                out["layout_twins"] = out.get("layout_twins", 0) + 1
+                if o3.status == "fail":
+                    out["failures"].append({"inputs": rtc.to_jsonable(kwargs), "clause": o3.clause, "observed": o3.observed, "history": [],
+                                            "detail": "with every 2-D+ array argument in Fortran order (np.asfortranarray): " + str(o3.detail),
+                                            "layout": "F"})
                     if len(out["failures"]) >= 5:
                         break
         hist.append(rtc.to_jsonable(kwargs))
@@ -371,7 +398,8 @@ def cmd_check(pid, tier, seed, opts):
                 known_hits.append((k, where))
                 continue
             out = rtc.Outcome("fail", f.get("clause"), f.get("detail"), f.get("observed"))
-            path = rtc.write_replay(pid, kind, where, rtc.from_jsonable(f["inputs"]), out)
+            path = rtc.write_replay(pid, kind, where, rtc.from_jsonable(f["inputs"]), out,
+                                    extra=({"layout": f["layout"]} if f.get("layout") else None))
             again = rtc.replay_isolated(path)          # re-execute from the file, in a fresh interpreter, before reporting
             if again.status != "fail" and f.get("history"):
                 # the failure needs the calls that preceded it (module- or object-level state in the code under check): find the
